@@ -23,6 +23,7 @@ from optilint.cfg import cfg_of
 from optilint.model import dotted, FuncVal, ExtVal
 from optilint.core import Incomplete
 from optilint.tensoreval import (Dual, Arr, EvalError, Raised, _A, rat_is_zero, rat_sign, Closure, PosVec, Deriv, sum_d)
+from optilint.expr import simplify
 from .common import src, same, calls_in, const_value
 from . import materials as mt
 from . import frames
@@ -201,26 +202,13 @@ def d2_bracket(ctx):
             ok_lb = _A.equal(lb.a, _A.atom("s0"))
             ctx.decide(rule, ok_lb, us, None, construct=f"bracket-lower-end-is-old-eqps[{pol}]", detail=f"lower end {lb.a!r}",
                        bad_detail=f"the root-finder bracket starts at {lb.a!r}, not at the old equivalent plastic strain: the update could decrease it")
-            # width * 3 mu == trial Mises - flow stress(eqps_old)
-            N = I.call(I.module_value(mod, "compute_flow_direction"), [E], {})
-            devE = I.call(I.module_value(ctx.need_module("optimism.TensorMath"), "dev"), [E], {})
-            mu = props.item(I.module_value(mod, "PROPS_MU"))
-            trial = Dual(2) * mu * sum_d(a * b for a, b in zip(devE.data, N.data))
-            Y = I.num(I.call(hm.values[1], [Dual(_A.atom("s0")), Dual(_A.atom("s0")), dt], {}))
-            want = (trial - Y) / (Dual(3) * mu)
-            ok_w = _A.equal(_A.norm(ub.a - lb.a), want.a)
-            ctx.decide(rule, ok_w, us, None, construct=f"bracket-width-is-yield-excess/(3mu)[{pol}]",
-                       detail="upper end - lower end = (trial Mises - flow stress)/(3 mu) > 0 when yielding",
-                       bad_detail=f"bracket width is {_A.norm(ub.a - lb.a)!r}, expected (trial Mises stress - flow stress at the old state)/(3 mu)")
-            ok_g = _A.equal(guess.a, _A.norm((lb.a + ub.a) / _A.const(2)))
-            ctx.decide(rule, ok_g, us, None, construct=f"initial-guess-inside-bracket[{pol}]", detail="guess is the bracket midpoint",
-                       bad_detail=f"initial guess {guess.a!r} is not the bracket midpoint")
             # increment = root - old
             ok_i = _A.equal(inc.data[0].a, _A.norm(_A.atom("eqpsRoot") - _A.atom("s0")))
             ctx.decide(rule, ok_i, us, None, construct=f"increment-is-root-minus-old[{pol}]", detail="d_eqps = root - eqps_old",
                        bad_detail=f"eqps increment is {inc.data[0].a!r}, not (root - old)")
         except (EvalError, Raised, KeyError, IndexError, TypeError, AttributeError) as ex:
             ctx.undecided(rule, us, None, construct=f"bracket[{pol}]", detail=str(ex))
+    d2_bracket_signs(ctx)
     # yield test uses the same trial stress and flow stress; elastic branch adds zero
     ci = ctx.need(f"{J2}:compute_state_increment")
     I, rec = _interp(ctx, False)
@@ -248,6 +236,102 @@ def d2_bracket(ctx):
             ok = "tensordot" in src(l) and "compute_flow_direction" in src(l) and "FLOW_STRESS" in src(r) or "compute_flow_stress" in src(r)
     ctx.decide(rule, ok, ci, tests[0].ast if tests else None, construct="yield-test-form", detail=shown,
                bad_detail=f"yield test `{shown}` is not (trial Mises stress - flow stress) > tolerance")
+
+
+def _sign_witness(r, want_positive):
+    """A point with all symbols positive where `r` has the wrong sign (or vanishes); '' if none is found on a small grid."""
+    import itertools
+    atoms = sorted(r.atoms())
+    plain = [a for a in atoms if not a.startswith("sqrt[")]
+    if len(plain) > 7:
+        return ""
+    for vals in itertools.product((1.0, 1e-3, 1e3), repeat=len(plain)):
+        env = dict(zip(plain, vals))
+        try:
+            v = _A.eval(r, env)
+        except (KeyError, ZeroDivisionError, ValueError):
+            continue
+        if v != v:
+            continue
+        if (want_positive and v <= 0) or (not want_positive and v >= 0):
+            return " (e.g. " + ", ".join(f"{k}={x:g}" for k, x in env.items()) + f" gives {v:.3g})"
+    return ""
+
+
+def d2_bracket_signs(ctx):
+    """Root-finder contract at the call site (C17 returns NaN unless the residual has strictly opposite signs at the two ends):
+    the residual handed to find_root is evaluated symbolically at both ends of the bracket on one-parameter families of trial
+    strains (t * fixed deviatoric direction + q * I), with the trial Mises stress written as flow stress + x, x > 0 (yielding),
+    linear hardening with modulus H > 0 and H = 0 (perfect plasticity), old plastic strain s0 > 0 and s0 = 0.
+    Required: residual(lower) < 0 and residual(upper) > 0 strictly.  (The initial guess is not constrained: the root finder
+    clips it into the bracket.)"""
+    rule = "D2/T2-bracket-roles"
+    mod = ctx.need_module(J2)
+    us = ctx.need(f"{J2}:update_state")
+    from fractions import Fraction
+    half = Dual(Fraction(1, 2))
+    fams = {"axial": [[Dual(1), Dual(0), Dual(0)], [Dual(0), -half, Dual(0)], [Dual(0), Dual(0), -half]],
+            "shear": [[Dual(0), Dual(1), Dual(0)], [Dual(1), Dual(0), Dual(0)], [Dual(0), Dual(0), Dual(0)]]}
+    n_done = 0
+    for fam, Dm in fams.items():
+        for hcase in ("H>0", "H=0"):
+            for scase in ("s0>0", "s0=0"):
+                tag = f"{fam},{hcase},{scase}"
+                I, rec = _interp(ctx, True)       # flow direction on its regular branch (non-zero deviator)
+                try:
+                    hmod = ctx.need_module("optimism.material.Hardening")
+                    opts = {"hardening model": "linear"}
+                    if hcase == "H=0":
+                        opts["hardening modulus"] = Dual(0)
+                    hprops = mt.PropDict(I, opts, {"hardening model", "rate sensitivity"})
+                    hm = I.call(I.module_value(hmod, "create_hardening_model"), [hprops], {})
+                    s0 = Dual(_A.atom("s0")) if scase == "s0>0" else Dual(0)
+                    I.positive.update({"s0", "t", "x", "dt"})
+                    state = Arr([s0] + [Dual(_A.atom(f"s{k}")) for k in range(1, 10)], (10,))
+                    props = PosVec("p", I)
+                    dt = Dual(_A.atom("dt"))
+                    t, q = Dual(_A.atom("t")), Dual(_A.atom("q"))
+                    E = Arr([t * Dm[i][j] + (q if i == j else Dual(0)) for i in range(3) for j in range(3)], (3, 3))
+                    I.call(I.module_value(mod, "update_state"), [E, state, dt, props, hm], {})
+                    args = rec.get("args")
+                    if not args or len(args) < 3 or not isinstance(args[2], Arr):
+                        ctx.undecided(rule, us, None, construct=f"bracket-signs[{tag}]", detail="find_root call not observed")
+                        continue
+                    f, guess = args[0], I.num(args[1])
+                    lb, ub = args[2].data[0], args[2].data[1]
+                    fl, fu = I.num(I.call(f, [lb], {})), I.num(I.call(f, [ub], {}))
+                    # trial Mises stress T(t) = c*t from the residual at the lower end: fl = -(T - Y_old); Y_old from the hardening model
+                    Yold = I.num(I.call(hm.values[1], [s0, s0, dt], {}))
+                    T = _A.norm((-fl - Dual(0)).a + Yold.a) if False else _A.norm(Yold.a - fl.a)
+                    c = _A.diff(T, "t")
+                    lin = _A.equal(_A.norm(c * _A.atom("t")), T) and rat_sign(c, I.positive) == 1 and "t" not in c.atoms()
+                    if not lin:
+                        ctx.undecided(rule, us, None, construct=f"bracket-signs[{tag}]", detail=f"residual at the lower end is not flow stress - c*t: {fl.a!r}")
+                        continue
+                    # yielding: T = Y_old + x with x > 0  <=>  t = (Y_old + x)/c
+                    tx = _A.norm((Yold.a + _A.atom("x")) / c)
+                    sub = lambda d: _A.norm(simplify(_A.subst(d.a, "t", tx)))
+                    sl_, su_ = rat_sign(sub(fl), I.positive), rat_sign(sub(fu), I.positive)
+                    wit_l = wit_u = ""
+                    if sl_ is None:
+                        w = _sign_witness(sub(fl), want_positive=False)
+                        if w:
+                            sl_, wit_l = 1, w
+                    if su_ is None:
+                        w = _sign_witness(sub(fu), want_positive=True)
+                        if w:
+                            su_, wit_u = -1, w
+                    n_done += 1
+                    ctx.decide(rule, (sl_ == -1) if sl_ is not None else None, us, None, construct=f"residual-negative-at-lower-end[{tag}]",
+                               detail=f"residual(lower) = {sub(fl)!r} < 0 while yielding",
+                               bad_detail=f"residual at the lower bracket end is {sub(fl)!r} (x = yield excess > 0): not negative{wit_l}, the bracket [old eqps, .] does not enclose the root from below")
+                    ctx.decide(rule, (su_ == 1) if su_ is not None else None, us, None, construct=f"residual-positive-at-upper-end[{tag}]",
+                               detail=f"residual(upper) = {sub(fu)!r} > 0",
+                               bad_detail=f"residual at the upper bracket end is {sub(fu)!r} for {hcase}, {scase} (x = yield excess > 0): not strictly positive{wit_u}, so the "
+                                          f"sign test of the root finder (NaN unless f(lo)*f(hi) < 0) is decided by round-off and the update returns NaN")
+                except (EvalError, Raised, KeyError, IndexError, TypeError, AttributeError, ZeroDivisionError) as ex:
+                    ctx.undecided(rule, us, None, construct=f"bracket-signs[{tag}]", detail=str(ex))
+    ctx.assume("the plastic residual depends on the trial strain only through its deviator (isotropy): bracket signs are decided on two deviatoric directions")
 
 
 def d3_wiring(ctx):
@@ -351,7 +435,12 @@ def variants(repo):
         Variant("exp of the whole increment", J, sub_in_func("compute_state_new_finite_deformations", "TensorMath.exp_symm(stateInc[PLASTIC_DISTORTION].reshape((3,3)))@FpOld", "TensorMath.exp_symm(stateInc[PLASTIC_DISTORTION].reshape((3,3)).T + np.identity(3))@FpOld"), "D1/T5-state-layout"),
         Variant("plastic update order", J, sub_in_func("compute_state_new_finite_deformations", "TensorMath.exp_symm(stateInc[PLASTIC_DISTORTION].reshape((3,3)))@FpOld", "FpOld@TensorMath.exp_symm(stateInc[PLASTIC_DISTORTION].reshape((3,3)))"), "D1/T9-frames"),
         Variant("bracket lower end 0", J, sub_in_func("update_state", "    lb = eqpsOld\n", "    lb = 0.0\n"), "D2/T2-bracket-roles"),
-        Variant("bracket width /mu", J, sub_in_func("update_state", "/(3.0*props[PROPS_MU])", "/(props[PROPS_MU])"), "D2/T2-bracket-roles"),
+        Variant("upper end is the root without hardening", J, sub_in_func("update_state", "    ub = eqpsOld + trialMises/(3.0*props[PROPS_MU])\n", "    ub = ub + 0.0\n"), "D2/T2-bracket-roles"),
+        Variant("upper end too close", J, sub_in_func("update_state", "    ub = eqpsOld + trialMises/(3.0*props[PROPS_MU])\n", "    ub = eqpsOld + trialMises/(6.0*props[PROPS_MU])\n"), "D2/T2-bracket-roles"),
+        Variant("upper end below lower end", J, sub_in_func("update_state", "    ub = eqpsOld + trialMises/(3.0*props[PROPS_MU])\n", "    ub = eqpsOld - trialMises/(3.0*props[PROPS_MU])\n"), "D2/T2-bracket-roles"),
+        # a wider (still valid) bracket and a different initial guess do not break the property: the root finder clips the guess
+        Variant("wider bracket (equivalent)", J, sub_in_func("update_state", "    ub = eqpsOld + trialMises/(3.0*props[PROPS_MU])\n", "    ub = eqpsOld + trialMises/props[PROPS_MU]\n"), None),
+        Variant("guess at a third (equivalent)", J, sub_in_func("update_state", "    eqpsGuess = 0.5*(lb + ub)", "    eqpsGuess = lb + (ub - lb)/3.0"), None),
         Variant("increment is the root", J, sub_in_func("update_state", "    DeltaEqps = eqps - eqpsOld", "    DeltaEqps = eqps"), "D2/T2-bracket-roles"),
         Variant("jacfwd argnum 2", J, sub("r = jax.jacfwd(incremental_potential, 1)", "r = jax.jacfwd(incremental_potential, 2)"), "D3/T5-variational-wiring"),
         Variant("lambda varies old eqps", J, sub_in_func("update_state", "lambda e: r(elasticTrialStrain, e, eqpsOld, dt, props, hardening_model)", "lambda e: r(elasticTrialStrain, eqpsOld, e, dt, props, hardening_model)"), "D3/T5-variational-wiring"),
